@@ -61,7 +61,8 @@ impl Family for C06 {
           "on_error_resume_next" => *rng.pick(&[0i64, 2, 4]),
           _ => rng.below(30) as i64,
         };
-        Json::obj(vec![("op", Json::str(op)), ("a", Json::Int(a)), ("in", pipe::gen_node(rng, &g, depth, &mut next_src))])
+        let input = Json::obj(vec![("op", Json::str("probe")), ("a", Json::Int(1)), ("in", pipe::gen_node(rng, &g, depth, &mut next_src))]);
+        Json::obj(vec![("op", Json::str(op)), ("a", Json::Int(a)), ("in", input)])
       }
       5..=6 => {
         let k = rng.range(2, 3);
@@ -94,7 +95,13 @@ impl Family for C06 {
       let pz = rng.below(order.len() as u64 + 1) as usize;
       order.insert(pz, ACT_UNSUB);
     }
-    spec_to_json(p, &sources, &order, vec![])
+    // sometimes the subscriber steps a source again from inside its callback (a further emission
+    // reaches the operator while the item that satisfies it is still being delivered)
+    let mut re = Vec::new();
+    if rng.below(5) == 0 {
+      re.push(Json::obj(vec![("on", Json::str("next")), ("do", Json::Int(rng.below(nsrc as u64) as i64))]));
+    }
+    spec_to_json(p, &sources, &order, vec![("reenter", Json::Arr(re))])
   }
   fn exec(&self, w: &Json, cfg: RunCfg) -> RunOut {
     let spec = match spec_from_json(w) {
@@ -147,7 +154,26 @@ impl Family for C06 {
         if let Some(u) = r.unsubs.first() {
           ends.push(("unsubscribe returned".to_string(), u.1, (0..nsrc).collect(), true));
         }
-        for (what, at, srcs, _) in &ends {
+        // emissions in progress at an instant (possibly nested: a re-entrant subscriber) may still
+        // run to their end; attempts that start after all of them returned are judged
+        let horizon = |at: u64| -> u64 {
+          let mut h = at;
+          // during subscribe() (cold sources play there) the driver action in progress is subscribe itself
+          if at < r.subscribe_returned {
+            h = r.subscribe_returned;
+          }
+          for l in &r.src_logs {
+            for e in l.lock().unwrap().emits.iter().filter(|e| e.seq_start < at && e.seq_end > at) {
+              h = h.max(e.seq_end);
+            }
+          }
+          for e in r.subject_emits.iter().filter(|e| e.seq_start < at && e.seq_end > at) {
+            h = h.max(e.seq_end);
+          }
+          h
+        };
+        for (what, at0, srcs, _) in &ends {
+          let at = &horizon(*at0);
           for i in srcs {
             let l = r.src_logs[*i].lock().unwrap();
             // the emission during which the end happened is still "this" emission; judge the next ones
@@ -169,6 +195,52 @@ impl Family for C06 {
                   format!("pipeline {}: {} at {}, yet subject src{} still held {} observer(s) when {} was pushed at {}", pshow, what, at, i, e.observers_before, e.step.show(), e.seq_start),
                 ));
                 break;
+              }
+            }
+          }
+        }
+        // an operator that "has all it needs" according to its input history (seen by probe 1 on its
+        // input edge) must have torn its upstream down, whether or not it managed to finish itself
+        if let (Some(cop), Some(p1)) = (cause.get("op").and_then(|x| x.as_str()), r.probes.get(1)) {
+          let has_input_probe = cause.get("in").map_or(false, |i| i.get("op").and_then(|x| x.as_str()) == Some("probe") && i.i("a") == 1);
+          if has_input_probe && p1.subscribed.len() <= 1 {
+            let a = cause.i("a");
+            let items: Vec<(u64, i64)> = p1.events.iter().filter_map(|e| if let Ev::Next(x) = &e.ev { Some((e.seq, x.int())) } else { None }).collect();
+            let vals: Vec<(u64, crate::val::Val)> = p1.events.iter().filter_map(|e| if let Ev::Next(x) = &e.ev { Some((e.seq, x.clone())) } else { None }).collect();
+            let pr = |k: i64, x: i64| -> bool {
+              match k.rem_euclid(3) {
+                0 => x % 10 < (k / 3).rem_euclid(10),
+                1 => x % 2 == 0,
+                _ => x % 10 != (k / 3).rem_euclid(10),
+              }
+            };
+            let satisfied: Option<u64> = match cop {
+              "take" => items.get((a.clamp(0, 8).max(1) - 1) as usize).map(|x| x.0),
+              "first" => items.first().map(|x| x.0),
+              "element_at" => items.get((a.clamp(0, 8).max(1) - 1) as usize).map(|x| x.0),
+              "take_while" | "all" => items.iter().find(|(_, x)| !pr(a, *x)).map(|x| x.0),
+              "contains" => vals.iter().find(|(_, x)| *x == crate::val::Val::Int(a)).map(|x| x.0),
+              _ => None,
+            };
+            if let Some(s_at) = satisfied {
+              // the emissions in progress at that instant (possibly nested) may still run; later ones are judged
+              let horizon = horizon(s_at);
+              for i in &below {
+                let l = r.src_logs[*i].lock().unwrap();
+                if let Some(e) = l.emits.iter().find(|e| e.seq_start > horizon && e.sub_before) {
+                  v.push(Violation::new(
+                    "source-still-subscribed",
+                    &blame,
+                    format!("pipeline {}: '{}' had all it needs once its input delivered the item at {}, yet src{} (subscription #{}) still saw is_subscribed()==true when it tried to emit {} at {}", pshow, cop, s_at, i, e.sub, e.step.show(), e.seq_start),
+                  ));
+                }
+                if let Some(e) = r.subject_emits.iter().find(|e| e.src == *i && e.seq_start > horizon && e.observers_before > 0) {
+                  v.push(Violation::new(
+                    "subject-still-holds-observer",
+                    &blame,
+                    format!("pipeline {}: '{}' had all it needs once its input delivered the item at {}, yet subject src{} still held {} observer(s) when {} was pushed at {}", pshow, cop, s_at, i, e.observers_before, e.step.show(), e.seq_start),
+                  ));
+                }
               }
             }
           }
